@@ -466,6 +466,29 @@ Definition src_inplace : bool :=
 Definition src_unlink_first : bool :=
   negb (list_eqb str_eqb calls_delete [b "s.saveIndex"; b "s.storage.Delete"]).
 (* Store.GC: rebuild the maps, save index.json, only then remove blob files *)
+(* control flow around the effects (translator kind callguards): the conditions under which the
+   model's operations write index.json, index a manifest, remove a blob *)
+Definition guard_eqb (x y : list (str * list str)) : bool :=
+  list_eqb (fun a c => str_eqb (fst a) (fst c) && list_eqb str_eqb (snd a) (snd c)) x y.
+Definition src_guards_ok : bool :=
+  (* delete: saveIndex iff a reference went (or came back) and AutoSaveIndex; the unlink unconditionally *)
+  guard_eqb guards_delete [(b "s.saveIndex", [b "indexChanged && s.AutoSaveIndex"]); (b "s.storage.Delete", [])] &&
+  (* tag: by digest when the reference is not the digest, by reference always, save iff AutoSaveIndex *)
+  guard_eqb guards_tag [(b "s.tagResolver.Tag", [b "reference != dgst"]); (b "s.tagResolver.Tag", []);
+                        (b "s.saveIndex", [b "s.AutoSaveIndex"])] &&
+  guard_eqb guards_untag [(b "s.tagResolver.Untag", []); (b "s.saveIndex", [b "s.AutoSaveIndex"])] &&
+  (* Push: store, index, remove again iff indexing failed, tag iff manifest-typed *)
+  guard_eqb guards_push [(b "s.storage.Push", []); (b "s.graph.Index", []);
+                         (b "s.storage.Delete", [b "err != nil"]);
+                         (b "s.tag", [b "descriptor.IsManifest(expected)"])] &&
+  (* Tag: existence, index iff manifest-typed, tag *)
+  guard_eqb guards_tag_api [(b "s.storage.Exists", []); (b "s.graph.Index", [b "descriptor.IsManifest(desc)"]);
+                            (b "s.tag", [])] &&
+  (* GC: save iff AutoSaveIndex; remove exactly the unreachable *)
+  guard_eqb guards_gc [(b "s.saveIndex", [b "s.AutoSaveIndex"]);
+                       (b "os.Remove", [b "!reachableNodes.Contains(blobDigest)"])] &&
+  guard_eqb guards_saveindex [(b "s.saveIndex", [])].
+
 (* ensureOCILayoutFile writes oci-layout through writeFileAtomic *)
 Definition src_layout_inplace : bool :=
   negb (list_eqb str_eqb calls_ensure_layout [b "writeFileAtomic"]).
